@@ -105,22 +105,22 @@ func (m *MTProto) makeAuthKey() error { // nolint don't know how to make method 
 	// this apparently is just part of diffie hellman, so just leave it as it is, hope that it will just work
 	_, gB, gAB := math.MakeGAB(dhi.G, big.NewInt(0).SetBytes(dhi.GA), big.NewInt(0).SetBytes(dhi.DhPrime))
 
-	authKey := gAB.Bytes()
-	if authKey[0] == 0 {
-		authKey = authKey[1:]
-	}
+	// auth key is 2048 bit value with all its leading zeros
+	authKey := dry.BigIntBytes(gAB, 2048) //nolint:gomnd size of auth key
 
 	m.SetAuthKey(authKey)
 
 	// I don't know what it is, apparently some very specific way to generate keys
 	t4 := make([]byte, 32+1+8) // nolint:gomnd ALL PROTOCOL IS A MAGIC
-	copy(t4[0:], nonceSecond.Bytes())
+	nonceSecondBytes := dry.BigIntBytes(nonceSecond.Int, tl.Int256Len*8) //nolint:gomnd bits in byte
+	nonceServerBytes := dry.BigIntBytes(nonceServer.Int, tl.Int128Len*8) //nolint:gomnd bits in byte
+	copy(t4[0:], nonceSecondBytes)
 	t4[32] = 1
 	copy(t4[33:], dry.Sha1Byte(m.GetAuthKey())[0:8])
 	nonceHash1 := dry.Sha1Byte(t4)[4:20]
 	salt := make([]byte, tl.LongLen)
-	copy(salt, nonceSecond.Bytes()[:8])
-	math.Xor(salt, nonceServer.Bytes()[:8])
+	copy(salt, nonceSecondBytes[:8])
+	math.Xor(salt, nonceServerBytes[:8])
 	m.serverSalt = int64(binary.LittleEndian.Uint64(salt))
 
 	// (encoding) client_DH_inner_data
@@ -149,11 +149,12 @@ func (m *MTProto) makeAuthKey() error { // nolint don't know how to make method 
 	if nonceServer.Cmp(dhg.ServerNonce.Int) != 0 {
 		return fmt.Errorf("handshake: Wrong server_nonce: %v, %v", nonceServer, dhg.ServerNonce)
 	}
-	if !bytes.Equal(nonceHash1, dhg.NewNonceHash1.Bytes()) {
+	gotNonceHash1 := dry.BigIntBytes(dhg.NewNonceHash1.Int, tl.Int128Len*8) //nolint:gomnd bits in byte
+	if !bytes.Equal(nonceHash1, gotNonceHash1) {
 		return fmt.Errorf(
 			"handshake: Wrong new_nonce_hash1: %v, %v",
 			hex.EncodeToString(nonceHash1),
-			hex.EncodeToString(dhg.NewNonceHash1.Bytes()),
+			hex.EncodeToString(gotNonceHash1),
 		)
 	}
 
